@@ -912,6 +912,10 @@ func init() {
 		Run: runLifecycle(lcParams{focus: "C01", crashes: true, lifeCrashes: true}),
 		Doc: base + "stop-free, with crashes within the restart budget on some messages (backlog larger than the batch, senders continuing through the restart): the messages the actor does not crash on are still delivered exactly once, with their sender, in per-sender order",
 		Faults: []string{"actor-crash-in-Receive"}})
+	core.Register(&core.Profile{Property: "C01", Name: "engine-restarts-poison", Weight: 1, Cfg: cfgEngine,
+		Run: runLifecycle(lcParams{focus: "C01", crashes: true, lifeCrashes: true, stops: true}),
+		Doc: base + "as 'engine-restarts', with Stop/Poison callers (crashes while the batch behind a poison pill is drained): whatever is delivered is delivered once, with its sender, in per-sender order",
+		Faults: []string{"actor-crash-in-Initialized", "actor-crash-in-Started", "actor-crash-in-Receive", "concurrent stop/poison"}})
 	core.Register(&core.Profile{Property: "C02", Name: "engine", Weight: 2, Cfg: cfgEngine,
 		Run: runLifecycle(lcParams{focus: "C02", stops: true, crashes: true, lifeCrashes: true, children: true}),
 		Doc: base + "with stop/poison callers and crash/restart; oracle: Receive intervals of one actor never overlap and each access to actor state is ordered after the previous one (vector clocks)"})
